@@ -18,6 +18,9 @@ import (
 	"fmt"
 	"io"
 	"math/big"
+	"os"
+	"os/exec"
+	"path/filepath"
 	"runtime"
 	"strings"
 	"time"
@@ -26,7 +29,14 @@ import (
 	"github.com/markkurossi/mpc/sha2pc"
 )
 
-func init() { register("c18", runC18) }
+func init() {
+	// a fresh-process child of the restart family (see c18FreshProcess): it only
+	// decodes the files it is given and continues the protocol from there
+	if role := os.Getenv("C18_CHILD"); role != "" {
+		os.Exit(c18Child(role))
+	}
+	register("c18", runC18)
+}
 
 type c18Curve struct {
 	name string
@@ -1441,6 +1451,181 @@ func c18Environments(c *Ctx, run *c18Run) {
 	}
 }
 
+// ---------------------------------------------------------------- real restarts (fresh processes)
+//
+// "Resumable" means: a NEW process that has done nothing but decode the
+// stored session and the pending message continues the protocol.  For one
+// run the harness writes the encodings to files and re-executes itself as a
+// child (C18_CHILD=<role>) per checkpoint and per decoder; the parent
+// compares what the child produced with the uninterrupted run.  Process state
+// built up by earlier rounds (lazily initialised tables, caches) is absent in
+// the child.
+
+func c18ChildFail(dir, role string, err error) int {
+	os.WriteFile(filepath.Join(dir, role+".err"), []byte(err.Error()), 0o644)
+	return 3
+}
+
+// c18Child runs in the child process.  Files: r1 r2 r3 gs es (encodings), a b
+// (inputs); C18_CURVE = curve index, C18_SEED = seed of the round's randomness.
+func c18Child(role string) int {
+	dir := os.Getenv("C18_DIR")
+	var ci int
+	var seed uint64
+	fmt.Sscanf(os.Getenv("C18_CURVE"), "%d", &ci)
+	fmt.Sscanf(os.Getenv("C18_SEED"), "%d", &seed)
+	cv := c18Curves[ci%len(c18Curves)]
+	rd := func(name string) []byte {
+		b, _ := os.ReadFile(filepath.Join(dir, name))
+		return b
+	}
+	wr := func(name string, b []byte) { os.WriteFile(filepath.Join(dir, role+"."+name), b, 0o644) }
+	var in [32]byte
+	switch role {
+	case "evaluator-round2": // a fresh evaluator receives Round1
+		r1, err := sha2pc.DecodeRound1(cv.c, rd("r1"))
+		if err != nil {
+			return c18ChildFail(dir, role, fmt.Errorf("DecodeRound1: %v", err))
+		}
+		copy(in[:], rd("b"))
+		r2, es, err := sha2pc.EvaluatorRound2(NewRNG(seed), cv.c, r1, in)
+		if err != nil {
+			return c18ChildFail(dir, role, fmt.Errorf("EvaluatorRound2: %v", err))
+		}
+		e2, err := sha2pc.EncodeRound2(cv.c, r2)
+		if err != nil {
+			return c18ChildFail(dir, role, fmt.Errorf("EncodeRound2: %v", err))
+		}
+		ee, err := sha2pc.EncodeEvaluatorSession(cv.c, es)
+		if err != nil {
+			return c18ChildFail(dir, role, fmt.Errorf("EncodeEvaluatorSession: %v", err))
+		}
+		wr("r2", e2)
+		wr("es", ee)
+	case "garbler-round3": // the garbler restarted after round 1, Round2 pending
+		gs, err := sha2pc.DecodeGarblerSession(cv.c, rd("gs"))
+		if err != nil {
+			return c18ChildFail(dir, role, fmt.Errorf("DecodeGarblerSession: %v", err))
+		}
+		r2, err := sha2pc.DecodeRound2(cv.c, rd("r2"))
+		if err != nil {
+			return c18ChildFail(dir, role, fmt.Errorf("DecodeRound2: %v", err))
+		}
+		copy(in[:], rd("a"))
+		r3, err := sha2pc.GarblerRound3(NewRNG(seed), cv.c, gs, in, r2)
+		if err != nil {
+			return c18ChildFail(dir, role, fmt.Errorf("GarblerRound3: %v", err))
+		}
+		e3, err := sha2pc.EncodeRound3(r3)
+		if err != nil {
+			return c18ChildFail(dir, role, fmt.Errorf("EncodeRound3: %v", err))
+		}
+		wr("r3", e3)
+	case "evaluator-round4": // the evaluator restarted after round 2, Round3 pending
+		es, err := sha2pc.DecodeEvaluatorSession(cv.c, rd("es"))
+		if err != nil {
+			return c18ChildFail(dir, role, fmt.Errorf("DecodeEvaluatorSession: %v", err))
+		}
+		r3, err := sha2pc.DecodeRound3(rd("r3"))
+		if err != nil {
+			return c18ChildFail(dir, role, fmt.Errorf("DecodeRound3: %v", err))
+		}
+		d, err := sha2pc.EvaluatorRound4(cv.c, es, r3)
+		if err != nil {
+			return c18ChildFail(dir, role, fmt.Errorf("EvaluatorRound4: %v", err))
+		}
+		wr("digest", d[:])
+	default: // decode-<file>: a decode-only consumer: decode, re-encode
+		var kind int
+		var file string
+		for k, f := range map[int]string{c18R1: "r1", c18R2: "r2", c18R3: "r3", c18GS: "gs", c18ES: "es"} {
+			if role == "decode-"+f {
+				kind, file = k, f
+			}
+		}
+		if file == "" {
+			return c18ChildFail(dir, role, fmt.Errorf("unknown child role"))
+		}
+		d := c18Decode(kind, cv, rd(file))
+		if d.class != clsOk {
+			return c18ChildFail(dir, role, fmt.Errorf("%s: class %d %s", c18KindName[kind], d.class, d.msg))
+		}
+		if d.reCls != clsOk {
+			return c18ChildFail(dir, role, fmt.Errorf("%s accepted the bytes but %s of the decoded value fails", c18KindName[kind], c18EncName[kind]))
+		}
+		wr("reenc", d.reEnc)
+	}
+	return 0
+}
+
+func c18FreshProcess(c *Ctx, run *c18Run) {
+	exe, err := os.Executable()
+	if err != nil {
+		c.Note("fresh-process family skipped: %v", err)
+		return
+	}
+	cv := run.cv
+	dir := filepath.Join(c.OutDir, "c18-fresh-"+cv.name)
+	os.MkdirAll(dir, 0o755)
+	files := map[string][]byte{"r1": run.enc[c18R1], "r2": run.enc[c18R2], "r3": run.enc[c18R3],
+		"gs": run.enc[c18GS], "es": run.enc[c18ES], "a": run.a[:], "b": run.b[:]}
+	for n, b := range files {
+		os.WriteFile(filepath.Join(dir, n), b, 0o644)
+	}
+	var x [32]byte
+	for i := range x {
+		x[i] = run.a[i] ^ run.b[i]
+	}
+	want := sha256.Sum256(x[:])
+	child := func(role string, seed uint64, expect map[string][]byte) {
+		cmd := exec.Command(exe)
+		cmd.Env = append(os.Environ(), "C18_CHILD="+role, "C18_DIR="+dir, fmt.Sprintf("C18_CURVE=%d", cv.id),
+			fmt.Sprintf("C18_SEED=%d", seed))
+		done := make(chan struct{})
+		var out []byte
+		var runErr error
+		go func() { out, runErr = cmd.CombinedOutput(); close(done) }()
+		select {
+		case <-done:
+		case <-time.After(120 * time.Second):
+			cmd.Process.Kill()
+			<-done
+			runErr = fmt.Errorf("child did not finish in 120 s")
+		}
+		c.Eval(fmt.Sprintf("fresh|%s|%s|%d", cv.name, role, run.s1), true)
+		rep := c18Replay{Seed: c.Seed, Curve: cv.name, Kind: role, A: fmt.Sprintf("%x", run.a), B: fmt.Sprintf("%x", run.b),
+			Seeds: fmt.Sprintf("%d,%d,%d", run.s1, run.s2, run.s3),
+			Plan:  "fresh child process C18_CHILD=" + role + " on the encodings of the uninterrupted run (files in " + dir + ")"}
+		if runErr != nil {
+			msg, _ := os.ReadFile(filepath.Join(dir, role+".err"))
+			tail := string(out)
+			if len(tail) > 400 {
+				tail = tail[len(tail)-400:]
+			}
+			rep.What = fmt.Sprintf("a fresh process that only decodes the stored state cannot continue (%s): %s %s", role, string(msg), tail)
+			c.Fail("c18:fresh-process:"+role+":error", rep.What, rep)
+			c.Hist("fresh-process:" + role + ":error")
+			return
+		}
+		c.Hist("fresh-process:" + role + ":ok")
+		for name, wantB := range expect {
+			got, _ := os.ReadFile(filepath.Join(dir, role+"."+name))
+			if !bytes.Equal(got, wantB) {
+				rep.What = fmt.Sprintf("a fresh process (%s) produces a different %s than the uninterrupted run", role, name)
+				rep.Got, rep.Want = hexHead(got), hexHead(wantB)
+				c.Fail("c18:fresh-process:"+role+":differs", rep.What, rep)
+			}
+		}
+	}
+	child("evaluator-round2", run.s2, map[string][]byte{"r2": run.enc[c18R2], "es": run.enc[c18ES]})
+	child("garbler-round3", run.s3, map[string][]byte{"r3": run.enc[c18R3]})
+	child("evaluator-round4", 0, map[string][]byte{"digest": want[:]})
+	for _, f := range []string{"r1", "r2", "r3", "gs", "es"} {
+		child("decode-"+f, 0, map[string][]byte{"reenc": files[f]})
+	}
+	os.RemoveAll(dir)
+}
+
 // ---------------------------------------------------------------- op histories
 //
 // A process holding several sessions calls an encoder several times and keeps
@@ -1982,6 +2167,7 @@ func runC18(c *Ctx) error {
 			if class == 2 && (cv.bl == 32 || c.Thorough()) {
 				c18TamperRound3(c, base)
 				c18Environments(c, base)
+				c18FreshProcess(c, base)
 			}
 			// (b) the run's own encodings
 			for _, k := range []int{c18R1, c18R2, c18GS, c18ES} {
